@@ -10,7 +10,9 @@ import eap_message "github.com/free5gc/ike/eap"
 func lemma_C03_KE(group uint16, data []byte) {
 	verifAssume(len(data) >= 1)
 	x := &KeyExchange{DiffieHellmanGroup: group, KeyExchangeData: data}
+	fm := verifFrameBegin()
 	b, err := x.Marshal()
+	verifFrameEnd(fm, "C20/KE/marshal-writes-nothing-that-existed-before")
 	verifAssert(err == nil, "C03/KE/marshal-ok")
 	// RFC 7296 3.4: DH group (16 bit), RESERVED (16 bit) = 0, data
 	verifAssert(len(b) == 4+len(data), "C05/KE/length")
@@ -18,7 +20,10 @@ func lemma_C03_KE(group uint16, data []byte) {
 	verifAssert(b[2] == 0 && b[3] == 0, "C05/KE/reserved-zero")
 	verifAssert(verifBytesEq(b[4:], data), "C05/KE/data")
 	y := new(KeyExchange)
+	fd := verifFrameBegin()
+	verifFrameAllow(fd, y)
 	verifAssert(y.Unmarshal(b) == nil, "C03/KE/unmarshal-ok")
+	verifFrameEnd(fd, "C20/KE/unmarshal-writes-only-the-payload-object")
 	verifAssert(y.DiffieHellmanGroup == group, "C03/KE/group")
 	verifAssert(verifBytesEq(y.KeyExchangeData, data), "C03/KE/data")
 	verifAssert(verifFresh(y.KeyExchangeData) && verifDisjoint(y.KeyExchangeData, b), "C20/KE/owns-data")
@@ -55,13 +60,18 @@ func lemma_C12_KE(b []byte) {
 func lemma_C03_Notify(proto uint8, typ uint16, spi, data []byte) {
 	verifAssume(len(spi) <= 255)
 	x := &Notification{ProtocolID: proto, NotifyMessageType: typ, SPI: spi, NotificationData: data}
+	fm := verifFrameBegin()
 	b, err := x.Marshal()
+	verifFrameEnd(fm, "C20/Notify/marshal-writes-nothing-that-existed-before")
 	verifAssert(err == nil, "C03/Notify/marshal-ok")
 	verifAssert(x.ProtocolID == proto && x.NotifyMessageType == typ && verifBytesEq(x.SPI, spi) && verifBytesEq(x.NotificationData, data), "C20/Notify/marshal-leaves-the-payload-unchanged")
 	verifAssert(len(b) == 4+len(spi)+len(data) && b[0] == proto && int(b[1]) == len(spi) && b[2] == byte(typ>>8) && b[3] == byte(typ), "C05/Notify/header")
 	verifAssert(verifBytesEq(b[4:4+len(spi)], spi) && verifBytesEq(b[4+len(spi):], data), "C05/Notify/spi-then-data")
 	y := new(Notification)
+	fd := verifFrameBegin()
+	verifFrameAllow(fd, y)
 	verifAssert(y.Unmarshal(b) == nil, "C03/Notify/unmarshal-ok")
+	verifFrameEnd(fd, "C20/Notify/unmarshal-writes-only-the-payload-object")
 	verifAssert(y.ProtocolID == proto && y.NotifyMessageType == typ, "C03/Notify/scalars")
 	verifAssert(verifBytesEq(y.SPI, spi) && verifBytesEq(y.NotificationData, data), "C03/Notify/byte-strings")
 	verifAssert(verifFresh(y.SPI) && verifDisjoint(y.SPI, b) && verifFresh(y.NotificationData) && verifDisjoint(y.NotificationData, b), "C20/Notify/owns-data")
